@@ -19,6 +19,7 @@ import (
 
 	"verif/gen/dpgen"
 	"verif/internal/hx"
+	"verif/ref/refesl"
 )
 
 const efivarsDir = "/sys/firmware/efi/efivars/"
@@ -35,7 +36,7 @@ func init() {
 		Assumptions: []string{"independent encoder dpgen from UEFI 2.8 sections 3.1.3/10.3", "HD text form per UEFI 10.6.1.6 compared by value (padding and hex case not judged)"},
 		Units: func(tier string) []string {
 			u := []string{"bootnum#0", "bootnum#1", "bootnum#2", "bootnum#3", "bootnum#4", "bootnum#5", "bootnum#6", "bootnum#7", "bootlists"}
-			for i := 0; i < 7; i++ {
+			for i := range c18Kinds {
 				u = append(u, "loadopt#"+strconv.Itoa(i))
 			}
 			return append(u, "hdtext", "pathchars", "reuse")
@@ -56,6 +57,10 @@ func c18Store(order []uint16) (fstest.MapFS, map[uint16]string) {
 		d := fmt.Sprintf("entry-%d", n)
 		desc[n] = d
 		lo := dpgen.LoadOption{Attributes: 1, Description: d, Nodes: []dpgen.Node{{Kind: "File", Path: "\\EFI\\x.efi"}}}
+		if n%2 == 1 {
+			// optional data behind the device path (an EFISTUB kernel command line, say)
+			lo.Optional = dpgen.UTF16Z("root=/dev/sda2 rw quiet")
+		}
 		m[efivarsDir+bootName(n)+"-"+globalGUIDText] = &fstest.MapFile{Data: append([]byte{7, 0, 0, 0}, lo.Bytes()...)}
 	}
 	m[efivarsDir+"BootOrder-"+globalGUIDText] = &fstest.MapFile{Data: bo}
@@ -196,6 +201,8 @@ func c18NodeVariants(kind string, thorough bool) []dpgen.Node {
 		}
 	case "FvFile":
 		out = append(out, dpgen.Node{Kind: kind, FvName: sigG}, dpgen.Node{Kind: kind, FvName: [16]byte{}})
+	case "Vendor":
+		out = append(out, dpgen.Node{Kind: kind, Vendor: sigG}, dpgen.Node{Kind: kind, Vendor: [16]byte{0x53, 0x47, 0xc1, 0xe0, 0xbe, 0xf9, 0xd2, 0x11, 0x9a, 0x0c, 0x00, 0x90, 0x27, 0x3f, 0xc1, 0x4d}})
 	case "USB":
 		for _, p := range u8 {
 			for _, i := range []uint8{0, 1, 0xff} {
@@ -215,7 +222,7 @@ func c18NodeVariants(kind string, thorough bool) []dpgen.Node {
 	return out
 }
 
-var c18Kinds = []string{"PCI", "ACPI", "HD-MBR", "HD-GPT", "File", "FvFile", "USB"}
+var c18Kinds = []string{"PCI", "ACPI", "HD-MBR", "HD-GPT", "File", "FvFile", "USB", "Vendor"}
 
 func c18CheckNode(want dpgen.Node, got device.EFIDevicePaths) string {
 	hdrOK := func(h device.EFIDevicePath, t, st byte) bool {
@@ -267,6 +274,14 @@ func c18CheckNode(want dpgen.Node, got device.EFIDevicePaths) string {
 		}
 		if !hdrOK(g.EFIDevicePath, 4, 6) || g.FirmwareFileName != want.FvName {
 			return "firmware-file node fields differ"
+		}
+	case "Vendor":
+		g, ok := got.(device.VendorMessagingDevicePath)
+		if !ok {
+			return fmt.Sprintf("vendor messaging node decoded as %T", got)
+		}
+		if !hdrOK(g.EFIDevicePath, 3, 10) || wire(g.Guid) != refesl.GUID(want.Vendor) {
+			return "vendor messaging node: GUID is not read in the in-structure layout (Data1..3 little-endian, Data4)"
 		}
 	case "USB":
 		g, ok := got.(device.USBMessagingDevicePath)
@@ -507,7 +522,13 @@ func c18Run(c *hx.Ctx, tier, unit string) {
 							if len(seq) >= 2 && (ai+di)%len(attrs) != 0 && !(thorough && len(seq) == 2) {
 								continue // pairwise-style thinning of attrs x descs for longer sequences
 							}
-							c18LoadOption(c, dpgen.LoadOption{Attributes: a, Description: d, Nodes: append([]dpgen.Node{}, cur...)})
+							lo := dpgen.LoadOption{Attributes: a, Description: d, Nodes: append([]dpgen.Node{}, cur...)}
+							c18LoadOption(c, lo)
+							if (ai+di)%2 == 0 {
+								// the same option carrying optional data behind its device path
+								lo.Optional = []byte{0x72, 0, 0x6f, 0, 0x6f, 0, 0x74, 0, 0x3d, 0, 0, 0, 0xff}
+								c18LoadOption(c, lo)
+							}
 						}
 					}
 					return
